@@ -109,7 +109,7 @@ func propC04(c *Ctx) {
 	// characters that tempt a "clean-up" at the edges of the input: byte order mark, NUL, line and paragraph
 	// separators, U+0100 (first character above the direct table), the last BMP characters
 	for _, k := range kinds {
-		for _, x := range []rune{0xfeff, 0, 0x2028, 0x2029, 0x100, 0xff, 0xfffe, 0xffff, 0x10000, 0x85, 0xa0, 0x1000a, 0x2000d, 0x10000a, 0x10ffff} {
+		for _, x := range []rune{0xfeff, 0, 0x2028, 0x2029, 0x100, 0xff, 0xfffe, 0xffff, 0x10000, 0x85, 0xa0, 0x1000a, 0x2000d, 0x10000a, 0x10ffff, 0x1003c, 0x10061, 0x10031, 0x10020, 0x10022, 0x1002f, 0x1007b, 0x2003d} {
 			for _, in := range [][]rune{{x}, {x, 'a'}, {'a', x}, {x, 'a', x}, {x, x}, {' ', x, ' '}, {x, '1', '.', '5'}, {'"', x, '"'}} {
 				runC04Case(c, k, in)
 			}
@@ -455,7 +455,7 @@ func runC15Case(c *Ctx, kind string, optSets []int, input []rune) {
 				continue
 			}
 		}
-		if kind == "h" || kind == "H" {
+		if kind == "h" || kind == "H" || kind == "Q" {
 			continue // a state written by the user: no model of it, the direct oracles decide
 		}
 		if c.Evals%16 == 0 {
@@ -474,6 +474,9 @@ func propC15(c *Ctx) {
 	propCfgKinds(c, nCfg, func(kind string, in []rune) {
 		runC15Case(c, kind, []int{1 + c.Rng.Intn(127), 1 + c.Rng.Intn(127), 127, 64 | 16, 32}, in)
 	})
+	for _, in := range []string{"a 'b' \"c\" d", "'x''y'", "\"\"", "'unterminated", "1 'q' 2"} {
+		runC15Case(c, "Q", allOpts, []rune(in))
+	}
 	// tokens of every public type: HexDecimal comes from a user number state only
 	for _, k := range []string{"h", "H"} {
 		for _, in := range []string{"a 12 0x1F 3.5 0 0xZ 07", "0x1F", "0xff+0X0a", "x=0x10 # c\n 0x", "'0x1' 0x2  0x3", "1 0x1 1.0 0x"} {
